@@ -292,8 +292,11 @@ def rich_value(rng, kind):
 def rich_tree(rng, refs, depth):
     from harness.props import c02
     if depth <= 0 or rng.random() < 0.3:
-        if rng.random() < 0.7:
+        r = rng.random()
+        if r < 0.7:
             return ('pv', rng.choice(refs))
+        if r < 0.76:
+            return ('lit', 'unavailable', None)          # e.g. IF($sel, $src, unavailable): the port must become unavailable
         return ('lit',) + c02.lit_text(None, rng.choice([0, 1, 2, 3, -1, 5, 0.5, 2.5, 10]))
     name = rng.choice(sorted(RICH_FUNCS))
     lo, hi = RICH_FUNCS[name]
@@ -379,10 +382,13 @@ def gen_rich(rng):
             v = c[2]
             if v is not None:
                 c[2] = bool(v) if k.endswith('bool') else (int(v) if k.endswith('int') else float(v))
-    return {'ports': ports, 'script': script}
+    return {'ports': ports, 'script': script, 'failed_restore_first': rng.random() < 0.1}
 
 
 RICH_CORPUS = [
+    # unavailability that comes from the literal, through a lazily evaluated branch
+    {'ports': [{'id': 'p0', 'kind': 'hbool', 'value': True}, {'id': 'p1', 'kind': 'hnum', 'value': 5.0}, {'id': 'p2', 'kind': 'vnum', 'value': None}],
+     'script': [['expr', 'p2', ('call', 'IF', [('pv', 'p0'), ('pv', 'p1'), ('lit', 'unavailable', None)])], ['set', 'p0', False]]},
     # disabling a port changes the value of the expressions that tolerate a disabled port (DEFAULT / AVAILABLE)
     {'ports': [{'id': 'p0', 'kind': 'hint', 'value': 0}, {'id': 'p1', 'kind': 'hint', 'value': 5}, {'id': 'p2', 'kind': 'vbool', 'value': None}],
      'script': [['expr', 'p1', ('call', 'DEFAULT', [('pv', 'p0'), ('lit', '1', 1)])], ['expr', 'p2', ('call', 'AVAILABLE', [('pv', 'p0')])],
@@ -414,7 +420,8 @@ def run_rich_worker(scenarios):
             else:
                 script.append(c)
         wire.append({'ports': [{'id': p['id'], 'kind': p['kind'], 'value': w.enc(p['value']), 'internal': bool(p.get('internal')),
-                                'twrite': p.get('twrite')} for p in sc['ports']], 'script': script})
+                                'twrite': p.get('twrite')} for p in sc['ports']], 'script': script,
+                     'failed_restore_first': bool(sc.get('failed_restore_first'))})
     env = dict(os.environ)
     env['PYTHONPATH'] = coq.VERIF + ':' + repo.REPO
     p = subprocess.run([sys.executable, '-m', 'harness.props.c01_rich_worker'], input=json.dumps(wire), capture_output=True,
@@ -447,6 +454,10 @@ def check_rich(ctx, res, scenarios, tag):
         for c in sc['script']:
             if c[0] in ('expr', 'expr-in-handler'):
                 trees[c[1]] = c[2]
+        if sc.get('failed_restore_first'):
+            d['typed_after_refused_restore'] = d.get('typed_after_refused_restore', 0) + 1
+            if not str(r.get('restore_outcome')).startswith('400'):
+                res['tie_failures'].append({'scenario': ws, 'note': 'typed stream: the malformed restore was answered %r' % r.get('restore_outcome')})
         if r.get('armed_left'):
             res['tie_failures'].append({'scenario': ws, 'note': 'typed stream: an in-handler assignment was never triggered'})
             continue
